@@ -25,7 +25,7 @@ fn fmt_pool(k: u64) -> Vec<FormatElement> {
 const POOL: u64 = 4 + 4 + 3 + 3 + 12;
 fn action_pool(k: u64) -> Action {
     // "a" / "./a" : names that a path normalisation would merge must stay distinct destinations
-    let files = ["a", "b", "./a"];
+    let files = ["a", "/dev/stdout", "./a"];
     match k {
         0 => Action::Print,
         1 => Action::PrintNull,
@@ -188,10 +188,12 @@ pub fn run(ctx: &Ctx, rep: &mut Report) {
     let n_big = ctx.pick(6, 60);
     par_cases(ctx, "many", n_big, rep, |i, rep| {
         let mut r = Rng::for_case(ctx.seed, "many", i);
-        let dests = 100 + r.usize(200);
+        // the first case has 300 pairwise distinct destinations, so that some tag exceeds 0xff whatever
+        // numbering scheme the generator uses
+        let dests = if i == 0 { 300 } else { 100 + r.usize(200) };
         let mut e: Option<Expression> = None;
         for d in 0..dests {
-            let a = match r.below(3) {
+            let a = match if i == 0 { 0 } else { r.below(3) } {
                 0 => Action::FilePrint(format!("out{}", d)),
                 1 => Action::FilePrintNull(format!("out{}", d / 2)),
                 _ => Action::FilePrintFormatted(format!("out{}", d), fmt_pool(r.below(4))),
